@@ -25,7 +25,7 @@ PLAN = {
     "thorough": {"shards": 16, "shard_timeout": 3600, "case_timeout": 40, "grammars": 16000, "max_case_timeouts": 160},
 }
 THRESHOLDS = {
-    "quick": {"remapped:ge": 300, "remapped:sge": 300, "remapped:dsge": 300, "remapped:stack": 60, "genotypes_with_refined_fields": 300, "dsge_extension_draws": 100, "after_variation": 300, "remapped_with_string_annotations:dsge": 80, "remapped_with_string_annotations:ge": 80},
+    "quick": {"remapped:ge": 300, "remapped:sge": 300, "remapped:dsge": 300, "remapped:stack": 60, "genotypes_with_refined_fields": 300, "dsge_extension_draws": 100, "after_variation": 300, "remapped_with_string_annotations:dsge": 80, "decider_used_elsewhere_between_mappings": 300, "remapped_with_string_annotations:ge": 80},
     "thorough": {"remapped:ge": 5000, "remapped:sge": 5000, "remapped:dsge": 5000, "remapped:stack": 800},
 }
 
@@ -143,6 +143,21 @@ def _run(ctx, case, rec):
                     src.enabled = False
                     src.randint(0, 10**6)  # other users of the shared stream in between
                     src.enabled = True
+                if kind in ("ge", "sge") and rng.random() < 0.5 and hasattr(rep, "decider"):
+                    # "at any later time": the decider object handed to the representation is used elsewhere in between
+                    # (a script that also creates a few trees with it); nothing of that may reach a later mapping
+                    from geneticengine.representations.tree.treebased import random_node
+
+                    src.enabled = False
+                    try:
+                        random_node(src, ctx.grammar, ctx.grammar.starting_symbol, rep.decider)
+                        rec.count("decider_used_elsewhere_between_mappings")
+                    except core.CaseTimeout:
+                        raise
+                    except BaseException:  # noqa
+                        pass
+                    finally:
+                        src.enabled = True
                 pn, usedn, outsiden, advn = mapping(geno, nth)
                 rec.count(f"remapped:{kind}")
                 rec.count("evaluations")
